@@ -122,32 +122,40 @@ func runC18(c *Ctx) {
 		hdr  ssa.Value
 	}
 	var sites []reqSite
+	nReq := 0
 	for _, f := range remote {
-		eachInstr(f, func(i ssa.Instruction) {
-			ci, ok := i.(*ssa.Call)
-			if !ok {
-				return
-			}
-			id := calleeID(ci)
-			if id != "maps.Copy" {
-				return
-			}
-			dst := ci.Call.Args[0]
-			fa, ok := isFieldLoad(dst, "net/http.Request", "Header")
-			if !ok || fa == nil {
-				return
-			}
-			// the request: result 0 of http.NewRequestWithContext
-			var url ssa.Value
-			for _, rv := range reachingVals(fa.X) {
-				if e, ok := rv.(*ssa.Extract); ok {
-					if nr, ok := e.Tuple.(*ssa.Call); ok && calleeID(nr) == "net/http.NewRequestWithContext" {
-						url = nr.Call.Args[2]
+		for _, nr := range callsIn(f, idIs("net/http.NewRequestWithContext")) {
+			nReq++
+			req := resultN(nr, 0)
+			url := nr.Common().Args[2]
+			// header sources: stores to req.Header and maps.Copy(req.Header, H)
+			eachInstr(f, func(i ssa.Instruction) {
+				switch x := i.(type) {
+				case *ssa.Store:
+					fa, ok := x.Addr.(*ssa.FieldAddr)
+					if !ok || fieldName(fa) != "Header" || typeQName(fa.X.Type()) != "net/http.Request" || !sameValue(fa.X, req) {
+						return
 					}
+					v := stripConv(x.Val)
+					if mk, ok := v.(*ssa.MakeMap); ok && mk != nil {
+						return // fresh empty header
+					}
+					sites = append(sites, reqSite{f, i, url, x.Val})
+				case *ssa.Call:
+					if calleeID(x) != "maps.Copy" {
+						return
+					}
+					fa, ok := isFieldLoad(x.Call.Args[0], "net/http.Request", "Header")
+					if !ok || fa == nil || !sameValue(fa.X, req) {
+						return
+					}
+					sites = append(sites, reqSite{f, i, url, x.Call.Args[1]})
 				}
-			}
-			sites = append(sites, reqSite{f, i, url, ci.Call.Args[1]})
-		})
+			})
+		}
+	}
+	if nReq < 5 {
+		c.bad(rp+":request-sites", token.NoPos, fmt.Sprintf("only %d request construction sites found (5 on the pinned tree)", nReq))
 	}
 	c.buildCallers()
 	for _, s := range sites {
@@ -246,6 +254,18 @@ func runC18(c *Ctx) {
 			continue
 		}
 		_, ok := sameCallResults(us[0].Val, hs[0].Val, rp+".redirect")
+		// written together: each store is executed whenever the other is
+		if ok {
+			a, b := ssa.Instruction(us[0]), ssa.Instruction(hs[0])
+			if !dominatesInstr(a, b) {
+				a, b = b, a
+			}
+			if !dominatesInstr(a, b) {
+				ok = false
+			} else if got, _ := reach(f, a, isReturn, newCuts().addInstr(b)); got != nil {
+				ok = false // a path performs one store but not the other
+			}
+		}
 		fresh := isFresh(us[0].Addr.(*ssa.FieldAddr).X)
 		lk := addrKey(us[0].Addr.(*ssa.FieldAddr).X) + ".urlMu"
 		locked := fresh || (c.locksAt(us[0])[lk] == lockW && c.locksAt(hs[0])[lk] == lockW && sameRegion(c, f, us[0], hs[0], lk))
